@@ -801,6 +801,8 @@ Inductive op :=
 | IopIn (c : oid) (p : list bool) (o : bop) (e : ex)       (* g = node; g &= e *)
 | IopChild (c : oid) (p : list bool) (side : bool) (o : bop) (e : ex)   (* node.left &= e *)
 | SetDiv (c : oid) (p : list bool) (isc : bool) (d : oid)  (* leaf.divider = obj *)
+| SetSide (c : oid) (p : list bool) (side : bool) (c2 : oid) (p2 : list bool)
+                                    (* node.left / node.right = a node of cell c2's geometry *)
 | SetMat (c : oid) (m : option oid)
 | SetUniv (c : oid) (u : oid)
 | SetFill (c : oid) (u : option oid)
@@ -892,6 +894,26 @@ Definition iop_child (g : st) (c : oid) (p : list bool) (side : bool) (o : bop) 
           | _, _ => (g, RErr PathErr)
           end
       end
+  end.
+
+(* node.left = sub / node.right = sub, where sub is a node of the geometry of cell c2 (the whole
+   geometry or a part of it: it keeps the _cell it has).  The setter's validator asks the cell of
+   the node to take the dividers of the new side, whoever owned the side before; then the side is
+   set.  (In Python the side is then SHARED by the two trees; the model copies it, so a program must
+   not change either tree in place afterwards: the harness generates only other operations.) *)
+Definition set_side (g : st) (c : oid) (p : list bool) (side : bool) (c2 : oid) (p2 : list bool) : st * res :=
+  match c_geom (cellf g c), c_geom (cellf g c2) with
+  | Some t, Some t2 =>
+      match node_at t p, node_at t (p ++ [side]), node_at t2 p2 with
+      | Some parent, Some _, Some sub =>
+          match link_side g (get_cp parent) sub with
+          | (g1, sub1, true) =>
+              (set_cell g1 c (cr_geom (cellf g1 c) (Some (replace_at t (p ++ [side]) sub1))), ROk)
+          | (g1, _, false) => (g1, RErr NumberConflict)
+          end
+      | _, _, _ => (g, RErr PathErr)
+      end
+  | _, _ => (g, RErr PathErr)
   end.
 
 (* UnitHalfSpace.divider setter: the cell's list is asked first, then the divider is assigned *)
@@ -1106,6 +1128,7 @@ Definition step (g : st) (o : op) : st * res :=
   | IopIn c p b e => iop_in g c p b e
   | IopChild c p s b e => iop_child g c p s b e
   | SetDiv c p isc d => set_div g c p isc d
+  | SetSide c p sd c2 p2 => set_side g c p sd c2 p2
   | SetMat c m => (set_cell g c (cr_mat (cellf g c) m), ROk)
   | SetUniv c u => (set_cell g c (cr_univ (cellf g c) (Some u)), ROk)
   | SetFill c u => (set_cell g c (cr_fill (cellf g c) u), ROk)
@@ -1145,7 +1168,16 @@ Definition links_safe (g : st) (o : op) : bool :=
   match o with
   | Dedup m => dedup_map_ok m
   | Relink => false
+  | SetSide _ _ _ _ _ => false     (* Links survives it (C16_foreign_side), node ownership does not *)
   | _ => true
+  end.
+
+(* operations that change neither a geometry nor a cell's lists *)
+Definition quiet_op (o : op) : bool :=
+  match o with
+  | SetMat _ _ | SetUniv _ _ | SetFill _ _ | SetFtr _ _ | SetSurfTr _ _ | SetNum _ _ _
+  | Append _ _ | Remove _ _ | Extend _ _ | Iadd _ _ | AddChildren => true
+  | _ => false
   end.
 
 (* "every member is linked to the problem" survives this operation *)
@@ -1317,6 +1349,9 @@ Definition parse_op (s : string) : option op :=
   | ["div"; c; p; k; d] =>
       match parse_nat c, parse_path p, parse_isc k, parse_nat d with
       | Some c, Some p, Some k, Some d => Some (SetDiv c p k d) | _, _, _, _ => None end
+  | ["side"; c; p; sd; c2; p2] =>
+      match parse_nat c, parse_path p, parse_side sd, parse_nat c2, parse_path p2 with
+      | Some c, Some p, Some sd, Some c2, Some p2 => Some (SetSide c p sd c2 p2) | _, _, _, _, _ => None end
   | ["mat"; c; m] =>
       match parse_nat c, parse_optnat m with Some c, Some m => Some (SetMat c m) | _, _ => None end
   | ["univ"; c; u] =>
